@@ -24,7 +24,8 @@ RULE = ("every table in {none,up,down}^(3 pairs x G genes), G=3 (4 "
         "gene sets {all, drop each one, add a foreign gene} x {full table, "
         "thinned table} per parent through select_marker_genes_v2 (quick: "
         "the two-level taxonomy on every table, the flat one on every 3rd, "
-        "query-set deviations on every 9th; thorough: everything); "
+        "query-set deviations on every 9th; thorough: everything but each "
+        "query-set deviation on every 9th table); "
         "select_all_markers with n_processors {1,2,3} x behemoth_cutoff "
         "{0,1,10^7} x per-parent override for every 27th table (quick: "
         "every 81st, workers {1,3}, cutoffs {0,10^7}).  "
@@ -334,8 +335,7 @@ def evaluate(case, scratch):
         path = d / f't_{idx}.h5'
         write_marker_file(path, cells, genes)
         for qi, query in enumerate(query_sets):
-            if qi and (idx % 9 != qi % 9 if case.get('quick') else
-                       idx % 3 != qi % 3):
+            if qi and idx % 9 != qi % 9:
                 continue          # query deviations on a subset of tables
             try:
                 full = MarkerGeneArray.from_cache_path(
